@@ -10,9 +10,11 @@
 
    NOT in the machine (implementation-only oracle of harness/props/c18.py instead): a creator that dies between its
    steps; storage faults (lost responses, re-sent requests); the commits of a first appender. *)
-From Coq Require Import List Bool Arith.
+From Coq Require Import ZArith List Bool Arith.
+Require Import DS.Model.Value DS.Gen.GenSchema DS.Model.Schema DS.Model.CreateBase DS.Gen.GenCreateSchema DS.Model.CreateSchema DS.Proofs.CreateSchemaProofs.
 Require Import DS.Model.CommitBase DS.Gen.GenCommit DS.Model.Commit DS.Model.Create DS.Proofs.CommitProofs DS.Proofs.CreateProofs.
 Import ListNotations.
+Open Scope nat_scope.
 
 (* At most one pointer creation ever succeeds, at every moment of every run. *)
 Theorem C18_single_init : forall c evs, sound c -> (length (c_creates (crun c absent evs)) <= 1)%nat.
@@ -123,6 +125,43 @@ Theorem C18_skeleton_regenerated :
 Proof. exact skeleton_regenerated. Qed.
 Print Assumptions C18_skeleton_regenerated.
 
+(* A schema supplied at creation is persisted and used by schema-less appends.  v0_schemas / table_schema /
+   gen_append_schema are the kernels regenerated from _initialize_table + TableMetadata.__post_init__,
+   _resolve_table_schema and append_data (Gen/GenCreateSchema.v); Schema.resolve is the append machine of C11. *)
+Theorem C18_schema_persisted_and_used : forall arg S, arg = Some S -> has_fields S = true ->
+  In S (fst (v0_schemas arg)) /\ snd (v0_schemas arg) = sid S
+  /\ table_schema arg = Some S
+  /\ gen_append_schema ischema (table_schema arg) None = Some S
+  /\ DS.Model.Schema.resolve (table_schema arg) None = inl S.
+Proof. exact schema_persisted_and_used. Qed.
+Print Assumptions C18_schema_persisted_and_used.
+
+(* Appends without any available schema (none given at creation, or one without fields, and none given to the
+   append) raise instead of writing empty rows: the regenerated append_data raises before its first statement that
+   puts anything on storage, and the append machine leaves the table exactly as it was. *)
+Theorem C18_no_schema_append_raises : forall arg, arg = None \/ (exists S, arg = Some S /\ has_fields S = false) ->
+  table_schema arg = None
+  /\ gen_append_schema ischema (table_schema arg) None = None
+  /\ DS.Model.Schema.resolve (table_schema arg) None = inr RejNoSchema
+  /\ (forall conv w e, DS.Model.Schema.w_schema w = table_schema arg -> DS.Model.Schema.e_arg e = None ->
+                       DS.Model.Schema.step conv w e = (w, RejNoSchema))
+  /\ In AARaiseNoSchema gen_append_order
+  /\ forallb (fun x => negb (writes_storage x)) (before AARaiseNoSchema gen_append_order) = true.
+Proof. exact no_schema_append_raises. Qed.
+Print Assumptions C18_no_schema_append_raises.
+
+(* ... and after a creation race it is the schema of the ONE initialisation that took effect (sarg u = what caller u
+   passed to create_table / Table), never a losing creator's. *)
+Theorem C18_schema_of_race : forall (sarg : aid -> option ischema) c evs, sound c ->
+  let w := crun c absent evs in
+  settled w -> c_files w <> [] ->
+  exists u, c_creates w = [u] /\ table_id w = Some u /\ persisted_schema sarg w = table_schema (sarg u)
+  /\ (forall S, sarg u = Some S -> has_fields S = true -> DS.Model.Schema.resolve (persisted_schema sarg w) None = inl S)
+  /\ (sarg u = None \/ (exists S, sarg u = Some S /\ has_fields S = false) ->
+      DS.Model.Schema.resolve (persisted_schema sarg w) None = inr RejNoSchema).
+Proof. exact schema_of_race. Qed.
+Print Assumptions C18_schema_of_race.
+
 (* ---------------------------------------------------------------------------------------------------- non-vacuity *)
 (* CAS storage, a lock that grants everyone: creators 0 and 1 both probe "absent", both write a v0 file (1's is the
    newer); 0's create-if-absent wins, 1's is refused: 1 resolves again (the table in effect is 0's), removes its own
@@ -175,3 +214,18 @@ Example C18_nonvacuous_excl :
   crun_strict c absent evs 0 = inl (crun c absent evs)
   /\ csummary (crun c absent evs) 2 = (Some 0, [0], [0], [0], [2; 2]).
 Proof. vm_compute. split; reflexivity. Qed.
+
+(* schemas: creator 0 supplies {x: long}, creator 1 supplies {x: long, y: string}; 0 wins the race above, so a
+   schema-less append uses {x: long}; a table created without a schema (or with an empty one) has none *)
+Definition fx : field := {| fid := 1%Z; fname := 1%Z; ftype := T_long; fspell := 0%Z; freq := false |}.
+Definition fy : field := {| fid := 2%Z; fname := 2%Z; ftype := T_string; fspell := 0%Z; freq := false |}.
+Definition sA : ischema := {| sid := 1%Z; sfields := [fx]; sstring := 0%Z |}.
+Definition sB : ischema := {| sid := 1%Z; sfields := [fx; fy]; sstring := 0%Z |}.
+Example C18_nonvacuous_schema :
+  let sarg := fun a : aid => match a with O => Some sA | _ => Some sB end in
+  persisted_schema sarg (crun race_cfg absent race_evs) = Some sA
+  /\ DS.Model.Schema.resolve (persisted_schema sarg (crun race_cfg absent race_evs)) None = inl sA
+  /\ v0_schemas None = ([empty0], 0%Z) /\ table_schema None = None
+  /\ table_schema (Some {| sid := 5%Z; sfields := []; sstring := 0%Z |}) = None
+  /\ c_files (crun race_cfg absent race_evs) <> [].
+Proof. vm_compute. repeat split; try reflexivity. discriminate. Qed.
